@@ -18,6 +18,37 @@ fn k4_rotation_id_roundtrip() {
     }
 }
 
+// The 24 basic rotations are proper rotations of the cube: entries in {-1, 0, 1}, orthonormal rows, determinant +1.  An oracle
+// that does not depend on the table itself (a flipped sign gives a reflection, determinant -1).
+#[kani::proof]
+#[kani::unwind(5)]
+fn k4_rotation_table_proper() {
+    let id: u8 = kani::any();
+    match Matrix3::from_basic_rotation_id(id) {
+        Ok(m) => {
+            let r = [[m.x.x, m.x.y, m.x.z], [m.y.x, m.y.y, m.y.z], [m.z.x, m.z.y, m.z.z]];
+            let mut i = 0;
+            while i < 3 {
+                let mut j = 0;
+                while j < 3 {
+                    assert!(r[i][j] == 0.0 || r[i][j] == 1.0 || r[i][j] == -1.0);
+                    let dot = r[i][0] * r[j][0] + r[i][1] * r[j][1] + r[i][2] * r[j][2];
+                    assert!(dot == if i == j { 1.0 } else { 0.0 });
+                    j += 1;
+                }
+                i += 1;
+            }
+            let det = r[0][0] * (r[1][1] * r[2][2] - r[1][2] * r[2][1]) - r[0][1] * (r[1][0] * r[2][2] - r[1][2] * r[2][0])
+                + r[0][2] * (r[1][0] * r[2][1] - r[1][1] * r[2][0]);
+            assert!(det == 1.0);
+            kani::cover!(id == 0x1c);
+        }
+        Err(e) => {
+            std::mem::forget(e);
+        }
+    }
+}
+
 fn close(a: f32, b: f32) -> bool {
     (a - b).abs() <= f32::EPSILON
 }
